@@ -23,7 +23,7 @@ KEY = {"DSC": "global_bin_dsc", "IOU": "global_bin_iou", "ASSD": "global_bin_ass
 RULE = (
     "(a) all pairs of G1(4,2), G2(2,3,1), G2(2,2,2) x 27 refs, G3(2,2,2,1) x 16 refs with the full global metric set (clDice only in 2-D/3-D) x input type; all non-empty subsets of the global "
     "metrics on G1(3,2)^2 (15 subsets) and G2(2,2,1)^2 (31 subsets); (b) 14 inputs with an empty prediction, an empty reference or both (1-D/2-D/3-D) x 625 handler tuples per metric "
-    "(metric m gets tuple (i+157*rank(m)) mod 625) x input type; (c) every foreground pair of G2(2,3,1)^2 x partitions {one label, one label per voxel, per-component labels, two-colouring} x "
+    "(metric m gets tuple (i+157*rank(m)) mod 625) x input type; (c) every foreground pair of G2(2,3,1)^2 x partitions {one label, one label per voxel, per-component labels, two-colouring, per-voxel labels 256*k in uint32} x "
     "{threshold matcher, merge matcher, matched input}. non-trivial = both foregrounds non-empty and different (a, c) / handler distinguishes the three empty scenarios (b); distinct by (arrays, configuration)"
 )
 ASSUMPTIONS = ["clDice: skimage skeleton trusted; compared only where defined (non-empty skeletons, non-zero sum)", "ASSD to 1e-9, others to 1e-12"]
@@ -249,6 +249,8 @@ def _partitions(fg):
     for x in zip(*np.nonzero(one)):
         par[x] = 1 + (sum(x) % 2)
     outs.append(("parity", par))
+    # the same per-voxel partition with label values that are multiples of 256 (they vanish in a narrower dtype)
+    outs.append(("per_voxel_x256", pv.astype(np.uint32) * 256))
     return outs
 
 
@@ -266,6 +268,8 @@ def _part_case(case, acc):
     ok = True
     variants = [case["variant"]] if "variant" in case else None
     for (pn, P), (rn, R) in itertools.product(_partitions(fp_), _partitions(fr_)):
+        if P.dtype != R.dtype:
+            P, R = P.astype(np.uint32), R.astype(np.uint32)
         for itype, matcher in (("UNMATCHED", "thr"), ("UNMATCHED", "merge"), ("MATCHED", None)):
             v = [pn, rn, itype, matcher]
             if variants and v not in variants:
